@@ -34,7 +34,7 @@ def dispatch (line : String) : String :=
       | "C10" => Swim.Drv.C10.handle kind fs
       | "C19" => Swim.Drv.C19.handle kind fs
       | "C11" => Swim.Drv.Codec.handleC11 kind fs
-      | "C12" => Swim.Drv.Codec.handleC12 kind fs
+      | "C12" => if kind == "udp" then Swim.Drv.Sim.handleC04 kind fs else Swim.Drv.Codec.handleC12 kind fs
       | "C13" => Swim.Drv.Ingest.handleC13 kind fs
       | "C14" => Swim.Drv.Ingest.handleC14 kind fs
       | "C15" => Swim.Drv.Ingest.handleC15 kind fs
